@@ -17,9 +17,15 @@ mc/ref/c20_child.py is the code that runs there, mc/ref/c20_drivers.py the canne
      module dictionary or in builtins; each attribute chain rooted at a module object must resolve
      on the real module objects of the only-own-subpackage interpreter; each lena-internal
      ``from m import n`` must find n.
- (d) every error case that a docstring documents with a named exception, for every argument of a small
-     pool of the documented invalid kind (mc/ref/c20_documented.py, about 170 calls): the call raises an
-     instance of one of the named LenaException subclasses.
+ (d) every error case that a docstring documents with a named exception (all :exc: roles of the
+     docstrings under lena/ were gone through; mc/ref/c20_documented.py lists what is left out and why),
+     for every argument of a small pool of the documented invalid kind (about 430 calls): the call raises
+     an instance of one of the named classes. This includes error cases reached through a second
+     documented callable (GroupBy.fill with a context that to_string documents as unserializable: 8 kinds
+     of item x 3 places in the context x 4 ways of selecting that part), run-time cases (fill, run,
+     __call__, fill_into) and exceptions of a user's callable that are documented to pass through.
+     Measured with it: which of the except clauses under lena/ that raise (the places where an error is
+     translated into the documented one) the table enters.
 """
 import json
 import os
@@ -40,7 +46,10 @@ RULE = ("(a) every (subpackage, advertised name) pair counts; (b) every probe = 
         "returned a value, or when a LenaException subclass was raised (a documented error path ran); "
         "(c) every load site (global name, module attribute chain, lena-internal from-import) of every "
         "code object counts; it is non-trivial when it resolves in a module dictionary (not builtins) "
-        "or walks at least one attribute of a module object. Cases are distinct by construction")
+        "or walks at least one attribute of a module object; (d) every call of the documented-error "
+        "table counts and is non-trivial (the error path it names ran or the call is reported); every "
+        "except clause under lena/ whose body raises counts once and is non-trivial when a call of the "
+        "table entered it. Cases are distinct by construction")
 ASSUMPTIONS = [
     "import configurations: for each of the 9 subpackages 'only lena.X (and what it imports itself)' "
     "in a fresh interpreter, compared with 'all 9 subpackages imported' (alphabetical order; thorough: "
@@ -54,6 +63,13 @@ ASSUMPTIONS = [
     "lena/, and AttributeError whose object is a lena module; plain TypeError/ValueError from unsuitable "
     "arguments are accepted in part (b) (for an arbitrary unsuitable argument the statement forbids only "
     "undefined names); where a docstring names the exception of an error case, part (d) demands it",
+    "part (d) is a hand-made table over the :exc: roles of lena's docstrings: an error case is taken only "
+    "when the docstring of the called object names the exception, or hands the argument to another lena "
+    "callable whose docstring names it (GroupBy.fill -> to_string; Filter -> Selector); invalid values are "
+    "small pools (e.g. unserializable context items: set, frozenset, plain object, bytes, complex, "
+    "function, Decimal, range - as a value, in a nested dictionary, in a list); not in the table: ROOT "
+    "elements, Cache.drop_cache, deprecated GroupPlots/_GroupBy, external programs. The list of raising "
+    "except clauses entered by the table is a measurement (sys.settrace line events), not a verdict",
     "numpy and ROOT are absent: NumpyHistogram is probed only up to its ImportError; the ROOT elements "
     "are additionally driven with a behaviour-free stand-in module named ROOT (classes TFile, TTree, "
     "TGraphErrors) so that the code after 'import ROOT' runs; external programs are never started "
@@ -64,7 +80,7 @@ ASSUMPTIONS = [
     "module-level names); attribute chains are followed only through module objects and only lena "
     "modules are judged; names reached through getattr()/globals() strings are not seen",
 ]
-NONTRIVIAL_FLOOR = {"quick": 4000, "thorough": 20000}
+NONTRIVIAL_FLOOR = {"quick": 4200, "thorough": 20000}
 BUDGET_S = {"quick": 240, "thorough": 1500}
 
 CHILD = os.path.join(core.VERIF, "mc", "ref", "c20_child.py")
@@ -75,11 +91,13 @@ def describe(tier):
     if tier == "thorough":
         return ("9 only-X configurations vs whole framework in alphabetical and in reverse import order; "
                 "%d canned driver entries; single-argument perturbations with a pool of %d values and "
-                "all argument pairs with a pool of %d values; every load site of every file under lena/"
+                "all argument pairs with a pool of %d values; every load site of every file under lena/; "
+                "the table of documented error cases (all :exc: roles of the docstrings gone through)"
                 % (len(drivers.ENTRIES), len(drivers.POOL_THOROUGH), len(drivers.POOL_PAIRS)))
     return ("9 only-X configurations vs whole framework (alphabetical import order); %d canned driver "
             "entries; single-argument perturbations with a pool of %d values; every load site of every "
-            "file under lena/" % (len(drivers.ENTRIES), len(drivers.POOL_QUICK)))
+            "file under lena/; the table of documented error cases (all :exc: roles of the docstrings "
+            "gone through)" % (len(drivers.ENTRIES), len(drivers.POOL_QUICK)))
 
 
 # ------------------------------------------------------------------------------------------------
@@ -118,27 +136,50 @@ def shards(tier):
 def run_documented(res, only_case=None):
     """(d) error cases that a docstring documents with a named exception (mc/ref/c20_documented.py): every
     listed call with every argument of its pool raises an instance of one of the named classes."""
-    import lena.core
     from mc.ref import c20_documented
-    for e in c20_documented.entries():
-        for i, thunk in enumerate(e["thunks"]):
-            case = {"part": "d", "sp": "lena", "law": "documented-error", "doc": e["doc"], "case": i}
-            if only_case is not None and (only_case["doc"], only_case["case"]) != (e["doc"], i):
-                continue
-            try:
-                got = "returned " + repr(thunk())[:80]
-                ok = False
-            except Exception as x:  # noqa: judged by type
-                ok = any(isinstance(x, getattr(lena.core, c)) for c in e["exc"])
-                got = "raised " + type(x).__name__
-            res.case(nontrivial=True, outcome=("documented", e["doc"], i, got))
-            res.count("d_documented_error_cases")
-            if not ok:
-                res.violation(case, got, "raises " + " or ".join(e["exc"]),
-                              {"law": "documented-error", "doc": e["doc"].split(" ")[0],
-                               "observed": got if got.startswith("raised") else "returned"})
+    handlers = c20_documented.raising_handlers(core.REPO)
+    cwd = os.getcwd()
+    with scratch_dir("lena-verif-c20d-") as wd, c20_documented.HandlerTrace(handlers) as trace:
+        os.chdir(wd)        # relative output directories of the table (Write("out")) stay in the scratch
+        try:
+            for e in c20_documented.entries():
+                classes = tuple(c20_documented.exception_class(c) for c in e["exc"])
+                for i, thunk in enumerate(e["thunks"]):
+                    case = {"part": "d", "sp": "lena", "law": "documented-error", "doc": e["doc"], "case": i}
+                    if only_case is not None and (only_case["doc"], only_case["case"]) != (e["doc"], i):
+                        continue
+                    try:
+                        got = "returned " + repr(thunk())[:80]
+                        ok = False
+                    except Exception as x:  # noqa: judged by type
+                        ok = isinstance(x, classes)
+                        got = "raised " + type(x).__name__
+                    res.case(nontrivial=True, outcome=("documented", e["doc"], i, got))
+                    res.count("d_documented_error_cases")
+                    if not ok:
+                        res.violation(case, got, "raises " + " or ".join(e["exc"]),
+                                      {"law": "documented-error", "doc": e["doc"].split(" ")[0],
+                                       "observed": got if got.startswith("raised") else "returned"})
+        finally:
+            os.chdir(cwd)
+    if only_case is not None:
+        return
+    # how much of lena's error translation the table reaches: every except clause under lena/ whose
+    # body raises, and whether a case of the table entered it (a measurement, never a verdict)
+    missed = []
+    for key in sorted(handlers, key=lambda k: handlers[k]):
+        entered = key in trace.entered
+        res.case(nontrivial=entered, outcome=("handler", handlers[key].split(":")[0], entered))
+        res.count("d_raising_except_clauses_under_lena")
+        if entered:
+            res.count("d_raising_except_clauses_entered_by_the_table")
+        else:
+            missed.append(handlers[key])
+            res.count("d_raising_except_clauses_not_entered[%s]" % handlers[key].split(":")[0])
+    res.count("d_exc_roles_in_docstrings", c20_documented.exc_roles(core.REPO))
+    res.sample({"part": "d", "raising except clauses not entered by the table": missed}, 3)
     res.sample({"part": "d", "sp": "lena", "law": "documented-error",
-                "doc": "math/utils.py:26 clip: interval is not a container", "case": 0}, 1)
+                "doc": "math/utils.py:26 clip: interval is not a container", "case": 0}, 3)
 
 
 # ------------------------------------------------------------------------------------------------
@@ -512,11 +553,16 @@ LEVEL_TEXT = ("bounded exhaustive exploration over import configurations and pro
               "with a pool of unsuitable values (thorough: all argument pairs, second import order), "
               "executed on the real code in both configurations; every load site (global name, module "
               "attribute chain, from-import) of every code object of every file under lena/ resolved "
-              "on the real module objects")
+              "on the real module objects; every error case that a docstring documents with a named "
+              "exception (about 430 calls, also through a second documented callable and at run time), "
+              "with the raising except clauses of lena/ that these calls enter measured")
 LEVEL_NOTE = ("part (c) enumerates all load sites on the live interpreter state instead of all paths (the "
               "property's own quantifier: 'checked statically against module scope and builtins'); "
               "part (b) compares only the behaviours reached by the canned drivers and their argument "
               "perturbations; numpy/ROOT code is reached dynamically only through a behaviour-free ROOT "
-              "stand-in; names built from strings (getattr, globals()) are not followed")
+              "stand-in; names built from strings (getattr, globals()) are not followed; part (d) is a "
+              "table made by reading the docstrings: error cases that no docstring names are not judged, "
+              "and the except clauses it does not enter are counted per file in the evidence counters")
 TECHNIQUE = ("fresh-interpreter differential execution per import configuration plus exhaustive bytecode "
-             "load-site resolution against real module dictionaries")
+             "load-site resolution against real module dictionaries, plus a table of documented error cases "
+             "judged by exception class with traced coverage of lena's raising except clauses")
